@@ -196,7 +196,7 @@ def _h2(reuse_mod):
         finally:
             pre = _STATE["capture_round"]
             _STATE["capture_round"] = None
-        if len(LOG.setdefault("norm", [])) < 4000 and self._reuse_tolerance != -1:
+        if len(LOG.setdefault("norm", [])) < 4000 and self._reuse_tolerance >= 0:
             post = None
             try:
                 from picosvg.svg_reuse import normalize as _n
@@ -212,7 +212,7 @@ def _h2(reuse_mod):
         res = _norm_log("try", self, path, lambda: orig_try(self, path, *extra, **kw))
         COUNT["H2.try_reuse"] += 1
         try:
-            if self._reuse_tolerance == -1:
+            if self._reuse_tolerance < 0:
                 COUNT["H2.disabled"] += 1
                 if res is not None:
                     _fail("H2", "reuse returned although disabled (tolerance -1)", path=path)
